@@ -77,7 +77,7 @@ class Contract:
 
 class LoopSpec:
     def __init__(self, qualname, ordinal, invariants=(), decreases=None, modifies=(),
-                 ghost=None, hints=(), havoc_locals=None, step=(), step_ret=()):
+                 ghost=None, hints=(), havoc_locals=None, step=(), step_ret=(), local_kinds=None):
         self.qualname = qualname
         self.ordinal = ordinal
         self.invariants = _clauses(invariants, f"inv{ordinal}_")
@@ -86,6 +86,7 @@ class LoopSpec:
         self.ghost = OrderedDict((k, parse_kind(v)) for k, v in (ghost or {}).items())
         self.hints = list(hints)
         self.havoc_locals = havoc_locals
+        self.local_kinds = OrderedDict((k, parse_kind(v)) for k, v in (local_kinds or {}).items())
         # step clauses: checked at the end of every iteration (back edge, break, return inside the loop);
         # prev(e) is e evaluated at the start of that iteration
         self.step = _clauses(step, f"step{ordinal}_")
